@@ -595,4 +595,6 @@ def run(tier):
     rep.floor("tail chomping cases", check_tail(rep, F, f, rec, R, G), 12)
     rep.floor("line join cases", check_join(rep, F, f, rec, R, G), 32)
     rep.floor("content-less cases", check_empty(rep, F, f, rec, R, G), 6)
+    from . import blockindent
+    rep.floor("explicit indentation cases", blockindent.check(rep, F), 80)
     return rep
